@@ -23,6 +23,7 @@ type Key struct {
 	Hash uint32
 	pub  ed25519.PublicKey
 	priv ed25519.PrivateKey
+	seed [32]byte
 }
 
 // NewKey derives a key deterministically.
@@ -38,7 +39,12 @@ func NewKey(name string, seed byte) *Key {
 	h.Write([]byte("\n"))
 	h.Write([]byte{1})
 	h.Write(pub)
-	return &Key{Name: name, Hash: binary.BigEndian.Uint32(h.Sum(nil)), pub: pub, priv: priv}
+	return &Key{Name: name, Hash: binary.BigEndian.Uint32(h.Sum(nil)), pub: pub, priv: priv, seed: s}
+}
+
+// SignerKey is the encoded signer key "PRIVATE+KEY+name+hash+base64(alg‖seed)".
+func (k *Key) SignerKey() string {
+	return fmt.Sprintf("PRIVATE+KEY+%s+%08x+%s", k.Name, k.Hash, base64.StdEncoding.EncodeToString(append([]byte{1}, k.seed[:]...)))
 }
 
 // VerifierKey is the encoded verifier key "name+hash+base64(alg‖pub)".
